@@ -154,7 +154,13 @@ class World:
         self.sysblock = set()    # names under /sys/block ('/' replaced by '!')
 
     # ----- process table -----
+    # names given to processes spawned without one: each is a trap for careless reading of the
+    # stat record or of the status file (the kernel prints tabs and blanks of a name as they are)
+    DEFAULT_COMMS = (b"p) (q) 1", b"Tgid:\t1", b"a\nb) R 1 (", b"State:\tZ (zo", b"Tgid: 1", b"PPid:\t1", b"Uid:\t7\t7\t7\t7")
+
     def spawn(self, pid, **kw):
+        if "comm" not in kw:
+            kw["comm"] = self.DEFAULT_COMMS[self.next_inc % len(self.DEFAULT_COMMS)]
         p = Proc(pid, inc=self.next_inc, **kw)
         self.next_inc += 1
         self.procs[pid] = p
